@@ -25,3 +25,4 @@ def run(ck):
     sampling.r17_cursor_step_follows_pipeline(ck, P, 'C08-R16')
     sampling.r12_wrap_is_a_loop(ck, P, 'C08-R17')
     sampling.r18_rotation_tiles(ck, P)
+    filt.r13_phase_follows_the_pixel(ck, P)
